@@ -213,4 +213,12 @@ def is_union(t, leaves):
     return go(t) and found == set(leaves)
 
 
-RULES = [rule_route, rule_pipe, rule_transition]
+def rule_gamma_shared(ctx):
+    """the problems are gamma-images: the strong-equivalence claim rests on gamma being the reduction of C05, on every connective"""
+    from . import c05
+    sub = type(ctx)(ctx.prop, ctx.tier, ctx.facts)
+    c05.rule_gamma(sub)
+    ctx.obls.extend(sub.obls)
+
+
+RULES = [rule_route, rule_pipe, rule_transition, rule_gamma_shared]
